@@ -357,6 +357,8 @@ class Interp:
             return self.spec_env[nm]
         if fr.spec and self.spec_alias.get(nm) in fr.env:
             return fr.env[self.spec_alias[nm]]      # a local that a loop annotation names was renamed in the code (see loop_spec)
+        if fr.spec and fr.fi is not None and self.renamed(fr.fi).get(nm) in fr.env:
+            return fr.env[self.renamed(fr.fi)[nm]]
         raise Raised(self.mk_exc('NameError')) if not fr.spec else Unsupported('unknown name in spec: ' + nm)
 
     def e_JoinedStr(self, node, fr):
@@ -758,7 +760,11 @@ class Interp:
             attr = self.mangle(node.func.attr, fr)
             args, kwargs = self.eval_args(node, fr)
             return self.call_method(base, attr, args, kwargs, fr, node.func.value, node)
-        fv = self.eval(node.func, fr)
+        if fr.spec and isinstance(node.func, ast.Name) and callable(self.spec_env.get(node.func.id)) and \
+                not callable(fr.env.get(node.func.id, self.spec_env[node.func.id])):
+            fv = self.spec_env[node.func.id]        # a local of the program that happens to share the name of a spec function is not the callee
+        else:
+            fv = self.eval(node.func, fr)
         fi0 = self.sb.info_of(fv) if callable(fv) and not isinstance(fv, (BoundSpecial, type)) else None
         if fi0 is not None and fi0.key in DROPPED_CALLS:
             self.dropped.add(fi0.qualname + '()')       # message printers: no-ops with empty frame
@@ -1247,11 +1253,31 @@ class Interp:
         return [i for i, n in enumerate(loops) if n.lineno <= lineno <= n.end_lineno]
 
     spec_alias = {}
+    pinned_locals = {}      # function key -> local names (first-occurrence order) on the pinned tree, from the ledger
+    _renamed = {}
+
+    def renamed(self, fi):
+        """old local name -> current local name, when the function has as many locals as on the pinned tree but some are called
+        differently (positional match by first occurrence).  Like resolve_renamed this only steers which proof is attempted."""
+        k = fi.key
+        if k not in self._renamed:
+            old, cur = self.pinned_locals.get(k), fi.local_names()
+            m = {}
+            if old and len(old) == len(cur) and old != cur:
+                m = {o: c for o, c in zip(old, cur) if o != c and o not in cur}
+                if m:
+                    self.trusted_used.add('locals of %s renamed since the pinned tree: %s' % (k, ', '.join('%s->%s' % kv for kv in sorted(m.items()))))
+            self._renamed[k] = m
+        return self._renamed[k]
 
     def loop_spec(self, node, fr):
         o = self.loop_ordinal(node, fr)
         spec = (self.loops.get(fr.fi.key) or {}).get(o)
         if spec is not None and not fr.spec:
+            ren = self.renamed(fr.fi)
+            if ren and any(k in ren for k in (spec.get('types') or {})):
+                spec = dict(spec)
+                spec['types'] = {ren.get(k, k): v for k, v in spec['types'].items()}
             spec = self.resolve_renamed(node, spec, fr)
         return o, spec
 
@@ -1275,7 +1301,8 @@ class Interp:
                 if isinstance(n, ast.Lambda):
                     lam_args |= {a.arg for a in n.args.args}
         import builtins
-        known = lambda nm: nm in fr.env or nm in self.spec_env or nm in fr.ns or hasattr(builtins, nm) or nm in lam_args or \
+        ren0 = self.renamed(fr.fi)
+        known = lambda nm: nm in fr.env or nm in ren0 or nm in self.spec_env or nm in fr.ns or hasattr(builtins, nm) or nm in lam_args or \
             nm in (spec.get('index'), 'self', 'result') or nm in (spec.get('ghost') or {})
         missing = [nm for nm in used if not known(nm)]
         if len(missing) != 1:
@@ -1411,7 +1438,7 @@ class Interp:
             self.check_promotion(s, fr, o)
             # lemma instances at the back edge may relate the new state to the state at the head of the iteration: pre("x")
             saved = self.spec_env.get('pre')
-            self.spec_env['pre'] = lambda name: pre_env[name]
+            self.spec_env['pre'] = (lambda pe, rn: (lambda name: pe[name] if name in pe else pe[rn.get(name, name)]))(pre_env, self.renamed(fr.fi) if fr.fi is not None else {})
             try:
                 self.assume_lemmas(spec.get('post_lemmas', []), fr)
             finally:
@@ -1485,7 +1512,7 @@ class Interp:
             # transition clauses: relate the state at the head of an iteration (pre('x')) to the state at its back edge
             for n, tr in enumerate(spec.get('transition', [])):
                 saved = self.spec_env.get('pre')
-                self.spec_env['pre'] = lambda name: pre_env[name]
+                self.spec_env['pre'] = (lambda pe, rn: (lambda name: pe[name] if name in pe else pe[rn.get(name, name)]))(pre_env, self.renamed(fr.fi) if fr.fi is not None else {})
                 try:
                     g = self.eval_spec(tr, fr)
                 finally:
@@ -1727,6 +1754,10 @@ class Interp:
         self.in_spec += 1
         try:
             return self.eval(node, f2)
+        except Raised as ex:
+            # an exception while evaluating a SPECIFICATION clause is never an exception of the program
+            raise Unsupported('exception %s while evaluating the specification clause %r' % (getattr(getattr(ex, 'exc', None), 'cls', type(ex)).__name__
+                                                                                         if hasattr(ex, 'exc') else 'raised', text[:80]))
         finally:
             self.in_spec -= 1
 
